@@ -669,6 +669,9 @@ func (e *MetaCDC) validCreateRequest(req *request.CreateRequest) error {
 		return servererror.NewClientError("the rpc channel is invalid, the channel name should be the same as the source config")
 	}
 
+	if verifSkipConnectProbe() {
+		return nil
+	}
 	if !isMilvusEmpty {
 		milvusConnectParam.Token = GetMilvusToken(milvusConnectParam)
 		milvusConnectParam.URI = GetMilvusURI(milvusConnectParam)
